@@ -113,7 +113,11 @@ func VerifC06Supply() {
 		for i := range acts {
 			acts[i] = &Transfer{To: addrs[verifChoose("to", c06Accounts)], Value: verifU64("value")}
 		}
-		tx, err := chain.NewTransaction(chain.Base{Timestamp: now + 1000*int64(t+1), ChainID: rules.ChainID, MaxFee: verifU64("maxfee")}, acts, c06Auth{addrs[0]})
+		actor := addrs[0]
+		if t == 1 {
+			actor = addrs[verifChoose("secondTxActor", 2)] // the second transaction is sent by the same or by another account
+		}
+		tx, err := chain.NewTransaction(chain.Base{Timestamp: now + 1000*int64(t+1), ChainID: rules.ChainID, MaxFee: verifU64("maxfee")}, acts, c06Auth{actor})
 		if err != nil {
 			verifFail("new-transaction")
 		}
